@@ -1,4 +1,6 @@
 import Dasp.Lemmas.Window
+import Dasp.Lemmas.EnvRounding
+import Dasp.Lemmas.RsNat
 /-! # C20 — Windowing yields the documented window shape and chunk schedule
 
 Property text (properties.jsonl, C20): "The Hann window at phase p equals 0.5*(1 - cos(2*pi*p)), lying in
@@ -37,6 +39,39 @@ example (p : Float) : hann floatArith p = 0.5 * (1.0 - Float.cos (p * Float.ofBi
 theorem hann_range (t : Rat) (c : Rat → Rat) (p : Rat) (hc : -1 ≤ c (p * t) ∧ c (p * t) ≤ 1) :
     0 ≤ hann (ratArith t c) p ∧ hann (ratArith t c) p ≤ 1 := by
   rw [hann_formula]; constructor <;> linarith [hc.1, hc.2]
+
+
+/-! ### the Hann value in rounded (floating-point) arithmetic -/
+
+/-- the window arithmetic with every `− ×` followed by a rounding `rnd` (the literals 0.5, 1.0 are exact) -/
+def rndWinArith (rnd : Rat → Rat) (t : Rat) (c : Rat → Rat) : Arith Rat :=
+  { ratArith t c with
+    add := fun a b => rnd (a + b), sub := fun a b => rnd (a - b), mul := fun a b => rnd (a * b), div := fun a b => rnd (a / b) }
+
+/-- "lying in [0, 1]" IN FLOATING POINT: for any rounding that is monotone and leaves 0, 1 and 2 unchanged
+    (round-to-nearest-even does), and a cosine routine whose result at the point evaluated lies in [−1, 1],
+    the computed `0.5 * (1.0 - cos(phase * 2π))` lies in [0, 1] — the two roundings cannot push it out -/
+theorem hann_range_rounded (rnd : Rat → Rat) (hmono : ∀ x y, x ≤ y → rnd x ≤ rnd y)
+    (h0 : rnd 0 = 0) (h1 : rnd 1 = 1) (h2 : rnd 2 = 2) (t : Rat) (c : Rat → Rat) (p : Rat)
+    (hc : -1 ≤ c (rnd (p * t)) ∧ c (rnd (p * t)) ≤ 1) :
+    0 ≤ hann (rndWinArith rnd t c) p ∧ hann (rndWinArith rnd t c) p ≤ 1 := by
+  show 0 ≤ rnd (1 / 2 * rnd (1 - c (rnd (p * t)))) ∧ rnd (1 / 2 * rnd (1 - c (rnd (p * t)))) ≤ 1
+  have a0 : 0 ≤ rnd (1 - c (rnd (p * t))) := by
+    have := hmono 0 (1 - c (rnd (p * t))) (by linarith [hc.2]); rwa [h0] at this
+  have a2 : rnd (1 - c (rnd (p * t))) ≤ 2 := by
+    have := hmono (1 - c (rnd (p * t))) 2 (by linarith [hc.1]); rwa [h2] at this
+  constructor
+  · have := hmono 0 (1 / 2 * rnd (1 - c (rnd (p * t)))) (by linarith); rwa [h0] at this
+  · have := hmono (1 / 2 * rnd (1 - c (rnd (p * t)))) 1 (by linarith); rwa [h1] at this
+
+/-- … and binary64's round-to-nearest-even (the rounding of the executable soft-float) is such a rounding -/
+theorem hann_range_f64 (t : Rat) (c : Rat → Rat) (p : Rat)
+    (hc : -1 ≤ c (Dasp.rs Dasp.f64 (p * t)) ∧ c (Dasp.rs Dasp.f64 (p * t)) ≤ 1) :
+    0 ≤ hann (rndWinArith (Dasp.rs Dasp.f64) t c) p ∧ hann (rndWinArith (Dasp.rs Dasp.f64) t c) p ≤ 1 := by
+  have hn : ∀ n : Nat, 0 < n → n ≤ 2 → Dasp.rs Dasp.f64 (n : Rat) = (n : Rat) :=
+    fun n h hn => Dasp.rs_f64_nat n h (le_trans hn (by norm_num))
+  exact hann_range_rounded _ (fun _ _ h => Dasp.rs_mono Dasp.f64 (by decide) h) (Dasp.rs_zero Dasp.f64)
+    (by simpa using hn 1 (by norm_num) (by norm_num)) (by simpa using hn 2 (by norm_num) (by norm_num)) t c p hc
 
 /-- "0 at both ends": wherever the cosine is 1 (p = 0 and p = 1 for the true cosine) -/
 theorem hann_zero_where_cos_one (t : Rat) (c : Rat → Rat) (p : Rat) (hc : c (p * t) = 1) :
